@@ -209,6 +209,9 @@ def _letters(i, n):
     return chr(97 + i % 26) * n
 
 
+SENTINELS = ["None", "0", "False", "[]", "-1", "''"]
+
+
 def pool(H, W):
     full = [_letters(i, W) for i in range(H)]
     p = {
@@ -224,6 +227,9 @@ def pool(H, W):
         "taller": [_letters(i + 10, W) for i in range(H + 1)],
         "wider0": [_letters(20, W + 1)] + full[1:],
         "widerlast": full[:H - 1] + [[[_letters(21, W + 1), 5]]],
+        # rows whose text is what str() makes of a value a cache, a dict.get or a default could hold ("None" is a row like any other)
+        "sentinels": [SENTINELS[i % len(SENTINELS)] for i in range(H)],
+        "sentinels_runs": [[[SENTINELS[(i + 1) % len(SENTINELS)], 0]] for i in range(H)],
     }
     return p
 
@@ -282,6 +288,10 @@ def _rand_row(rng, W, prev, fit):
     if prev is not None and k < .45 and rowlen(prev):
         text = prev if isinstance(prev, str) else "".join(t for t, _ in prev)
         return [[text, rng.randrange(len(ATTS))]]      # same text, other formatting
+    if k > .93:
+        t = rng.choice(SENTINELS)
+        t = t[:W] if fit else t
+        return t if rng.random() < .5 else [[t, 0]]
     n = rng.choice([W, W, W, 0, W + 1, W - 1] + list(range(W + 1)))
     n = max(0, min(n, W) if fit else n)
     text = "".join(rng.choice("abc ") for _ in range(n))
